@@ -508,9 +508,15 @@ def gen_pair(r, k):
             fields = []
             for _ in range(r.choice([0, 1, 2, 3, 4, 6, 10])):
                 n, v, s = rand_field(r, pool)
-                if r.random() < 0.04:
+                if r.random() < 0.03:
+                    # (Huffman coding of a huge string is quadratic in the extracted model's
+                    # unary-bit integers: huge strings travel raw, medium ones either way)
                     v = rand_bytes(r, r.choice([16383, 16384, 5000]), "ascii")
+                    huff = False
                     tags.append("huge-value")
+                elif r.random() < 0.03:
+                    v = rand_bytes(r, r.choice([127, 128, 200, 700]), "ascii")
+                    tags.append("long-value")
                 fields.append((n, v, s))
                 if s:
                     tags.append("sensitive")
@@ -519,6 +525,8 @@ def gen_pair(r, k):
             if bi > 0 and blocks and r.random() < 0.3:
                 fields = list(blocks[r.randrange(len(blocks))]["fields"])       # repeat an earlier block
                 tags.append("repeated-block")
+            if any(len(v) > 2000 or len(n) > 2000 for n, v, _ in fields):
+                huff = False        # the reference decoder of the Spec is slow on huge Huffman strings
             blocks.append({"sets": sets, "fields": fields, "huff": huff})
             cmds.append("eenc %s %d %s" % (e, 1 if huff else 0,
                                            " ".join("%s %s %d" % (hx(n), hx(v), 1 if s else 0) for n, v, s in fields)))
